@@ -343,18 +343,7 @@ def _gen_grid(rng, directions):
     }
 
 
-_shrink_budget = [400]  # candidates per worker process: enough to minimise several witnesses, bounded under mass failure
-
-
 def shrink(case):
-    for c in _shrink(case):
-        if _shrink_budget[0] <= 0:
-            return
-        _shrink_budget[0] -= 1
-        yield c
-
-
-def _shrink(case):
     if case["kind"] == "g":
         edges, negw = case["edges"], case["negw"]
         for i in range(len(edges)):
